@@ -28,6 +28,10 @@ func (fx *fnExec) step(in ssa.Instruction, st *State, b *ssa.BasicBlock) {
 		v := fx.value(in.Val, st)
 		mp := fx.ptrOf(addr, st, in.Pos(), true)
 		if v.Ptr != nil {
+			if m, ok := fx.tryMaterialize(v); ok {
+				fx.store(st, mp, m)
+				return
+			}
 			if mp.Kind == PLocal && len(mp.Path) == 0 {
 				// an interior pointer kept in a non-escaping local (e.g. a pointer parameter of an
 				// inlined callee): stays at the meta level
